@@ -15,13 +15,14 @@ func b01(b bool) string {
 	return "0"
 }
 
-func (c dcol) stok() string {
-	e := "_"
+func (c dcol) etok() string {
 	if c.typ == "enum" {
-		e = "e " + opt(c.eschema) + " " + hx(c.enum)
+		return "e " + opt(c.eschema) + " " + hx(c.enum)
 	}
-	return join(hx(c.name), e, b01(c.comment != ""))
+	return "_"
 }
+
+func (c dcol) stok() string { return join(hx(c.name), c.etok(), b01(c.comment != "")) }
 
 func (i didx) stok() string {
 	ts := []string{hx(i.name), strconv.Itoa(len(i.cols))}
@@ -71,8 +72,16 @@ func (s dsub) stok() string {
 		return s.k + " " + s.fk.stok()
 	case "AK":
 		return "AK " + b01(s.chk.name != "")
-	case "DK":
-		return "DK"
+	case "DK", "MK", "APK", "DPK", "MPK":
+		return s.k
+	case "MC":
+		return join("MC", hx(s.col2.name), s.col.etok(), s.col2.etok(),
+			b01(strings.Contains(s.chg, "type")), b01(s.col2.typ == "serial"),
+			b01(strings.Contains(s.chg, "null") || s.chg == "default"), b01(strings.Contains(s.chg, "comment")))
+	case "MI":
+		return join("MI", s.idx.stok(), s.idx2.stok(), b01(strings.Contains(s.chg, "parts")), b01(strings.Contains(s.chg, "comment")))
+	case "MF":
+		return join("MF", s.fk.stok(), s.fk2.stok())
 	case "ATC", "MTC":
 		return "TC"
 	}
@@ -96,12 +105,12 @@ func (c dchange) stok() string {
 	case "MO":
 		return join("MO", opt(c.eschema), hx(c.ename), strconv.Itoa(len(c.vals2)-len(c.vals)))
 	case "RO":
-		return join("RO", hx(c.ename), hx(c.ename2))
+		return join("RO", opt(c.eschema), hx(c.ename), opt(c.eschema), hx(c.ename2))
 	}
 	panic("unmodelled change " + c.k)
 }
 
-var skelSubs = []string{"AC", "DC", "RC", "AI", "DI", "RI", "AF", "DF", "AK", "DK", "ATC", "MTC"}
+var skelSubs = []string{"AC", "DC", "MC", "MC", "RC", "AI", "DI", "MI", "RI", "AF", "DF", "MF", "AK", "DK", "MK", "APK", "DPK", "MPK", "ATC", "MTC"}
 
 // stmtHead: the first two keywords (CREATE UNIQUE INDEX counts as CREATE INDEX).
 func stmtHead(st string) string {
